@@ -45,7 +45,9 @@ macro_rules! impl_prim_type_hash {
 
         impl MaxSizeOf for $ty {
             fn max_size_of() -> usize {
-                size_of::<$ty>()
+                // Maximized with the alignment, as documented in MaxSizeOf:
+                // this matters for `()`, whose size is zero.
+                size_of::<$ty>().max(core::mem::align_of::<$ty>())
             }
         }
     )*};
@@ -260,7 +262,8 @@ impl<T: ?Sized> CopyType for PhantomData<T> {
 
 impl<T: ?Sized> MaxSizeOf for PhantomData<T> {
     fn max_size_of() -> usize {
-        0
+        // the alignment of a zero-sized type: zero is not a valid alignment unit
+        1
     }
 }
 
